@@ -1,7 +1,10 @@
 import MoneroModel.Basic
 import MoneroModel.Gen.Tables
 /-! Model of `Network::{as_u8, from_u8}` (src/network.rs) and `AddressType::from_slice` (src/util/address.rs):
-plain lookups in the tables regenerated from the source on every run. -/
+plain lookups in the tables of `Gen/Tables.lean`, which are rewritten on every run from what the COMPILED functions of the
+current source answer on their finite domains (harness/src/observe.rs: the 9 pairs and 6 payment ids, all 256 bytes, `from_slice`
+on first byte × lengths 1..=160 × 5 content patterns, and on the empty blob). The SHAPE of the lookup — byte 0 selects the row,
+one minimum length, one contiguous payment-id range — is the shape observe.rs imposes (anything else is an EXTRACT-FAIL). -/
 namespace Monero
 /-- `Network::as_u8` -/
 def asU8 (n : Net) (k : Kind) : Option Nat := (Gen.asU8.find? fun e => e.1 = n ∧ e.2.1 = k).map (·.2.2)
@@ -13,9 +16,15 @@ def addrArm (net : Net) (b : Nat) : Option (Kind × Nat × Nat × Nat) :=
 /-- `AddressType::from_slice`: the address type and (for integrated addresses) the payment-id bytes -/
 def addrTypeOf (net : Net) (bytes : Bytes) : Option (Kind × Bytes) :=
   match bytes with
-  | [] => none   -- `bytes.is_empty()` is an error (Gen.addrTypeEmptyIsError; without the test `bytes[0]` would panic)
+  -- the empty blob: the OBSERVED answer (`Gen.addrTypeEmptyIsError` = "`from_slice(&[], n)` returned `Err`, without a panic, under
+  -- all three networks"). Were the flag ever regenerated as `false`, the model would return a visibly wrong value here and
+  -- `C20_type_lookup_empty` / `C20_type_total` would stop compiling.
+  | [] => if Gen.addrTypeEmptyIsError then none else some (.Standard, [])
   | b :: _ =>
     match addrArm net b.toNat with
     | none => none
     | some (k, minLen, lo, hi) => if bytes.length < minLen then none else some (k, (bytes.drop lo).take (hi - lo))
+/-- the observed flag as a rewrite rule: `simp [addrTypeOf]` closes the empty-blob case in files that do not import Props/C20
+(Proofs/PanicsProofs). Fails to compile — visibly — if the flag is ever regenerated as `false`. -/
+@[simp] theorem addrTypeEmptyIsError_true : Gen.addrTypeEmptyIsError = true := by decide
 end Monero
